@@ -1287,6 +1287,19 @@ func (u *Unit) spawnContracted(st *State, e *ast.CallExpr) bool {
 	return true
 }
 
+// renameParams: the tuple with the TYPES of `inst` and the NAMES of `generic` (instantiated signatures keep names, but be safe).
+func renameParams(generic, inst *types.Tuple) *types.Tuple {
+	if generic == nil || inst == nil || generic.Len() != inst.Len() {
+		return generic
+	}
+	var vs []*types.Var
+	for i := 0; i < generic.Len(); i++ {
+		g := generic.At(i)
+		vs = append(vs, types.NewVar(g.Pos(), g.Pkg(), g.Name(), inst.At(i).Type()))
+	}
+	return types.NewTuple(vs...)
+}
+
 // splitConj: the top-level conjuncts of a contract expression.
 func splitConj(e ast.Expr) []ast.Expr {
 	if b, ok := ast.Unparen(e).(*ast.BinaryExpr); ok && b.Op == token.LAND {
@@ -1310,6 +1323,11 @@ func mentionsHeldCall(e ast.Expr) bool {
 
 func (u *Unit) applyContract(st *State, e *ast.CallExpr, callee *types.Func, ct *FuncContract, cset *ContractSet, ca callArgs) Term {
 	sig := callee.Type().(*types.Signature)
+	if isig, ok := u.typeOf(e.Fun).(*types.Signature); ok && sig.TypeParams() != nil && sig.TypeParams().Len() > 0 && isig.Params().Len() == sig.Params().Len() {
+		// generic callee: use the instantiated signature, so that `modifies a` of a []T parameter names the element heap
+		// of the ACTUAL element type (and not an unrelated heap of the type parameter)
+		sig = types.NewSignatureType(sig.Recv(), nil, nil, renameParams(sig.Params(), isig.Params()), renameParams(sig.Results(), isig.Results()), sig.Variadic())
+	}
 	names := map[string]Term{}
 	if sig.Recv() != nil && ca.recv != nil {
 		if n := sig.Recv().Name(); n != "" && n != "_" {
@@ -1633,6 +1651,12 @@ func (u *Unit) havocTarget(st *State, env *SpecEnv, m Clause) {
 		h := u.ptrHeap(ut.Elem())
 		cur := u.heapRead(st, h)
 		nv := u.freshOf(st, ut.Elem(), "cell")
+		if nm, ok := ut.Elem().(*types.Named); ok {
+			// `final` fields of the cell keep their value (only constructors assign them)
+			for _, i := range u.eng.finalFields(nm) {
+				st.assume(eq(u.fieldGet(nv, i).S, u.fieldGet(Term{S: fmt.Sprintf("(select %s %s)", cur, t.S), T: nm}, i).S))
+			}
+		}
 		u.heapWrite(st, h, fmt.Sprintf("(store %s %s %s)", cur, t.S, nv.S))
 	case *types.Map:
 		hp, hv := u.mapHeaps(ut)
